@@ -416,7 +416,8 @@ def _members_on_contexts(rep, M, dt, file):
     subs = [s for s in dt.a.get("subs", []) if isinstance(s, N)]
     n = 0
     bad = None
-    years = ((1, 1, 1, 0, 0, 0), (1, 1, 1, 0, 30, 0), (9999, 12, 31, 23, 30, 59), (2021, 2, 28, 12, 0, 0), (2024, 2, 29, 23, 59, 59), (1970, 1, 1, 0, 0, 0))
+    years = ((1, 1, 1, 0, 0, 0), (1, 1, 1, 0, 30, 0), (9999, 12, 31, 23, 30, 59), (2021, 2, 28, 12, 0, 0), (2024, 2, 29, 23, 59, 59), (1970, 1, 1, 0, 0, 0),
+             (2000, 2, 29, 0, 0, 0), (2400, 2, 29, 12, 0, 0), (1600, 2, 29, 6, 0, 0), (1900, 2, 28, 23, 59, 59), (2100, 3, 1, 0, 0, 0), (4, 2, 29, 0, 0, 0))
     for (y, mo, d, h, mi, se) in years:
         for dev in (None, 0, 60, -60, 720, -720):
             for status in (0x00, 0x01, 0x0F, 0x80, 0xC0, 0xFE, 0xFF):
